@@ -13,6 +13,7 @@ union-find over wire segments and decides whether the recorded outputs violate t
 """
 from __future__ import annotations
 
+import os
 from fractions import Fraction
 
 from qiskit.circuit import Gate
@@ -244,15 +245,35 @@ WITNESS_CIRCUITS = [
 ]
 
 
+def _job(case):
+    """run the implementation and the brute-force oracle on one case (also executed in worker processes)"""
+    analyse(case)
+    inp = case["input"]
+    gates = _gates_of(case)
+    domain = (inp["max_gamma"] >= 1 and (inp["max_backjumps"] is None or inp["max_backjumps"] >= 0) and inp["W"] >= 1
+              and (inp["gate_lo"] or inp["wire_lo"]) and len(gates) <= 8)
+    opt = None
+    if domain:
+        try:
+            opt = brute_optimum(inp["nq"], gates, inp["W"], inp["gate_lo"], inp["wire_lo"], budget=400_000)[0]
+        except RuntimeError:
+            opt = None
+    case["oracle_in_domain"] = bool(domain)
+    case["oracle_opt"] = None if opt is None else str(opt)
+    return case
+
+
 def generate(rng, tier, outdir):
     w = CaseWriter(outdir, IMPORTS, case_types={"chk_c08": "case8"})
-    w.SHARD = 150
     quick = tier == "quick"
+    w.SHARD = 150 if quick else 500
     visit_cap = 3000 if quick else 20000
 
     def emit(group, inp, nontrivial=None, thin=False):
-        case = dict(kind=group, input=inp)
-        analyse(case)
+        return record(group, _job(dict(kind=group, input=inp)), nontrivial, thin)
+
+    def record(group, case, nontrivial=None, thin=False):
+        inp = case["input"]
         runs = case["runs"]
         if thin and all(r["status"] != "ok" or r["n_cuts"] == 0 for r in runs) and rng.random() > 0.25:
             return None           # keep only a fraction of the uninformative outcomes (no cut needed / refusal)
@@ -272,14 +293,9 @@ def generate(rng, tier, outdir):
             if r["status"] == "ok":
                 w.count(group + ".minimum_reached", r["minimum_reached"])
         # the independent oracle on every generated case (histogram only; verdicts come from run.py)
-        opt = None
-        domain = (inp["max_gamma"] >= 1 and (inp["max_backjumps"] is None or inp["max_backjumps"] >= 0) and inp["W"] >= 1
-                  and (inp["gate_lo"] or inp["wire_lo"]) and len(gates) <= 8)
-        if domain:
-            try:
-                opt = brute_optimum(inp["nq"], gates, inp["W"], inp["gate_lo"], inp["wire_lo"], budget=400_000)[0]
-            except RuntimeError:
-                opt = None
+        opt = case.pop("oracle_opt", None)
+        if case.pop("oracle_in_domain", False):
+            opt = None if opt is None else Fraction(opt)
             if opt is not None:
                 below = Fraction(inp["max_gamma"]) < opt
                 w.count(group + ".max_gamma_vs_optimum", "below the optimum" if below else "at or above the optimum")
@@ -315,13 +331,26 @@ def generate(rng, tier, outdir):
         seeds = [s, s + 1] if (quick or it % 4) else [s, None]
         return dict(nq=nq, ops=ops, W=W, gate_lo=lo[0], wire_lo=lo[1], max_gamma=mg, max_backjumps=mb, seeds=seeds)
 
+    jobs = []
     for g in range(1, gmax_full + 1):
         for nq, ops in small_circuits(g):
             for W in range(1, nq + 1):
                 for lo in LO:
-                    emit("exhaustive", small_case(nq, ops, W, lo, it))
-                    w.count("exhaustive.gates", g)
+                    inp = small_case(nq, ops, W, lo, it)
+                    if g == 4:
+                        inp["seeds"] = inp["seeds"][:1]          # 155 904 requests: one seed each
+                    jobs.append(dict(kind="exhaustive", input=inp))
                     it += 1
+    if quick or len(jobs) < 2000:
+        done = map(_job, jobs)
+    else:
+        import multiprocessing as mp
+        nproc = max(1, min(8, int(os.environ.get("CKT_JOBS", "8"))))
+        pool_ = mp.get_context("fork").Pool(nproc)
+        done = pool_.imap(_job, jobs, chunksize=256)
+    for case in done:
+        record("exhaustive", case)
+        w.count("exhaustive.gates", len(case["input"]["ops"]))
     if n_sample:
         pool = [c for g in (3, 4) for c in small_circuits(g)]
         for k in range(n_sample):
@@ -379,7 +408,7 @@ def generate(rng, tier, outdir):
     return w.finish(
         rule="(1) corpus: the F3 witness class (cx;swap chains, W=2, max_gamma in {1,2,3,8}, every cut-kind combination, 3 seeds incl. None); "
              "(2) bounded-exhaustive: every circuit up to qubit relabelling on <=4 qubits with <=%s two-qubit gates from {cx: gamma 3, swap: gamma 7}"
-             "%s, every W in 1..n and every cut-kind combination, max_gamma/max_backjumps cycling through %s / %s, 2 seeds; "
+             "%s, every W in 1..n and every cut-kind combination, max_gamma/max_backjumps cycling through %s / %s, 2 seeds (1 seed for 4 gates); "
              "(3) random circuits on 2..6 qubits with 1..7 two-qubit gates (idle qubits, arbitrary first use, one-qubit gates), max_gamma in %s "
              "(limits below the optimum included), max_backjumps in %s, 3 seeds incl. None; (4) malformed: invalid settings, no cut kind, W=0. "
              "Compared EXACTLY per seed with the model fed the recorded queue tape: sampling_overhead and minimum_reached (or the refusal). "
